@@ -360,6 +360,10 @@ where
             return Err(MqttError::MalformedPacket);
         }
 
+        if data[0..buffer_size].iter().all(|&b| b == 0) {
+            // Packet Identifier 0 is not allowed
+            return Err(MqttError::MalformedPacket);
+        }
         let packet_id = PacketIdType::from_buffer(&data[0..buffer_size]);
         let packet_id_buf = packet_id.to_buffer();
         cursor += buffer_size;
